@@ -539,8 +539,10 @@ func buildTransports(spec string) (base.HeaderValue, error) {
 			m := headers.TransportModeRecord
 			t.Mode = &m
 		}
-		if f[0] == "u" && f[3] == "1" {
-			p := nextPorts()
+		if f[0] == "u" && f[3] != "0" {
+			// field 3 = 1 + port id; the server only compares and stores the numbers
+			id, _ := strconv.Atoi(f[3])
+			p := 30000 + 2*((id-1)%10000)
 			t.ClientPorts = &[2]int{p, p + 1}
 		}
 		if f[0] == "t" && f[4] != "0" {
